@@ -115,8 +115,10 @@ class BoundedCheck:
         limit = float(getattr(self, 'case_timeout_s', 0) or os.environ.get('VERIF_CASE_TIMEOUT_S', '30'))
         old_handler = None
         try:
-            old_handler = signal.signal(signal.SIGALRM, _on_alarm)
-            signal.setitimer(signal.ITIMER_REAL, limit)
+            # processor time of this process, not wall-clock time: on a busy machine a process may wait seconds for a core,
+            # and that must not read as "does not terminate"
+            old_handler = signal.signal(signal.SIGPROF, _on_alarm)
+            signal.setitimer(signal.ITIMER_PROF, limit)
         except (ValueError, OSError):       # not in the main thread: no per-case limit
             old_handler = None
         try:
@@ -125,7 +127,7 @@ class BoundedCheck:
             # every operation the checks run on their small inputs takes milliseconds on the unchanged library: a case that is still running after
             # `limit` seconds does not terminate in any useful sense (the properties that speak of termination: C13; everywhere else: completes)
             return [Violation('the operation terminates (a small input is dealt with in well under a second on the unchanged library)', f'{self.name}.does-not-terminate',
-                              case, f'< {limit:g} s', f'still running after {limit:g} s')]
+                              case, f'< {limit:g} s of processor time', f'still running after {limit:g} s of processor time')]
         except Exception as ex:  # noqa: BLE001
             root = os.path.realpath(os.path.join(os.environ.get('FSIC_REPO', '/repo'), 'fsic'))
             frames = traceback.extract_tb(ex.__traceback__)
@@ -139,8 +141,8 @@ class BoundedCheck:
         finally:
             if old_handler is not None:
                 try:
-                    signal.setitimer(signal.ITIMER_REAL, 0)
-                    signal.signal(signal.SIGALRM, old_handler)
+                    signal.setitimer(signal.ITIMER_PROF, 0)
+                    signal.signal(signal.SIGPROF, old_handler)
                 except (ValueError, OSError):
                     pass
 
